@@ -258,3 +258,14 @@ pub fn panic_sig(msg: &str) -> String {
     }
     out
 }
+
+/// record a violation, keeping at most `max_per_sig` witnesses per signature in this process
+/// (the summary's violation list is capped; a recurring finding must not crowd out others)
+pub fn push_violation(sum: &mut vq_util::Summary, v: vq_util::Violation, max_per_sig: usize) {
+    let n = sum.violations.iter().filter(|x| x.signature == v.signature).count();
+    if n < max_per_sig {
+        sum.violation(v);
+    } else {
+        sum.count("violations_deduplicated", 1);
+    }
+}
